@@ -3,9 +3,12 @@
    expires first), one global 1 s discovery rate limiter, per-destination datagram queues, ARP replies that are
    timely, late, unsolicited or carry a non-unicast hardware address, and clock jumps across the 1 s / 60 s boundaries.
    Time is in milliseconds; the clock only moves by the jumps in Jumps, at most MaxJumps times.
-   Deviation switches (negative controls): DevNoExpiry (entries never expire), DevNoRateLimit, DevLearnBroadcast. *)
+   Neighbour advertisements without the override flag do not replace a live entry (NDISC); traffic received from a
+   neighbour confirms its entry.
+   Deviation switches (negative controls): DevNoExpiry (entries never expire), DevNoRateLimit, DevLearnBroadcast,
+   DevRefreshOnSend (our own transmissions extend an entry's life). *)
 EXTENDS Integers, FiniteSets, Sequences, TLC
-CONSTANTS Hosts, K, Jumps, MaxJumps, MaxSend, DevNoExpiry, DevNoRateLimit, DevLearnBroadcast
+CONSTANTS Hosts, K, Jumps, MaxJumps, MaxSend, DevNoExpiry, DevNoRateLimit, DevLearnBroadcast, DevRefreshOnSend
 VARIABLES now, cache, silentUntil, queued, learned, lastReq, jumps, sent, bad
 vars == <<now, cache, silentUntil, queued, learned, lastReq, jumps, sent, bad>>
 Macs == Hosts \cup {"bcast"}
@@ -29,7 +32,8 @@ Egress(h) ==
      THEN /\ queued' = [queued EXCEPT ![h] = @ - 1]
           \* N1: the hardware address used was learned from a valid message and confirmed < 60 s ago
           /\ bad' = bad \cup (IF learned[h].mac = cache[h].mac /\ cache[h].mac # "bcast" /\ now - learned[h].t < 60000 THEN {} ELSE {"N1"})
-          /\ UNCHANGED <<cache, silentUntil, lastReq>>
+          /\ cache' = IF DevRefreshOnSend THEN [cache EXCEPT ![h].exp = now + 60000] ELSE cache
+          /\ UNCHANGED <<silentUntil, lastReq>>
      ELSE /\ (DevNoRateLimit \/ now >= silentUntil)
           /\ silentUntil' = now + 1000 /\ lastReq' = [lastReq EXCEPT ![h] = now]
           \* N3: discovery for one target at most once per second
@@ -42,9 +46,21 @@ ArpReply(h, mac) ==
      ELSE /\ cache' = Fill(cache, h, mac)
           /\ learned' = [learned EXCEPT ![h] = IF mac = "bcast" THEN @ ELSE [mac |-> mac, t |-> now]]
   /\ UNCHANGED <<now, silentUntil, queued, lastReq, jumps, sent, bad>>
+\* a neighbour advertisement without the override flag: only fills an absent / expired entry
+AdvertNoOverride(h, mac) ==
+  /\ IF Found(h) \/ (mac = "bcast" /\ ~DevLearnBroadcast) THEN UNCHANGED <<cache, learned>>
+     ELSE /\ cache' = Fill(cache, h, mac)
+          /\ learned' = [learned EXCEPT ![h] = IF mac = "bcast" THEN @ ELSE [mac |-> mac, t |-> now]]
+  /\ UNCHANGED <<now, silentUntil, queued, lastReq, jumps, sent, bad>>
+\* a unicast packet from h (with the hardware address the cache holds) confirms the entry
+TrafficFrom(h) ==
+  /\ cache[h].mac \notin {"none", "bcast"}
+  /\ cache' = [cache EXCEPT ![h].exp = now + 60000]
+  /\ learned' = [learned EXCEPT ![h] = IF @.mac = cache[h].mac THEN [@ EXCEPT !.t = now] ELSE @]
+  /\ UNCHANGED <<now, silentUntil, queued, lastReq, jumps, sent, bad>>
 Jump(d) == /\ jumps < MaxJumps /\ now' = now + d /\ jumps' = jumps + 1
            /\ UNCHANGED <<cache, silentUntil, queued, learned, lastReq, sent, bad>>
-Next == \/ \E h \in Hosts : AppSend(h) \/ Egress(h) \/ \E m \in {h, "bcast"} : ArpReply(h, m)
+Next == \/ \E h \in Hosts : AppSend(h) \/ Egress(h) \/ TrafficFrom(h) \/ \E m \in {h, "bcast"} : ArpReply(h, m) \/ AdvertNoOverride(h, m)
         \/ \E d \in Jumps : Jump(d)
 Spec == Init /\ [][Next]_vars
 NoBad == bad = {}
